@@ -664,7 +664,7 @@ func ParseSpecText(text, path, pkgPath string) (*SpecFile, error) {
 				cl.Props = strings.FieldsFunc(m[3][1:len(m[3])-1], func(r rune) bool { return r == ' ' || r == ',' })
 			}
 			if cl.Kind == "modifies" {
-				if strings.TrimSpace(cl.Src) != "nothing" {
+				if strings.TrimSpace(cl.Src) != "nothing" && strings.TrimSpace(cl.Src) != "anything" {
 					for _, part := range splitTop(cl.Src, ',') {
 						e, err := ParseExpr(part)
 						if err != nil {
